@@ -38,7 +38,9 @@ const PROP: &str = "C18";
 // ------------------------------------------------------------------------------------------
 // Generated parameterised validators
 
-const TYPES_MODULE: &str = r#"pub type Item {
+const TYPES_MODULE: &str = r#"use aiken/builtin
+
+pub type Item {
   Plain
   Tagged { tag: ByteArray, n: Int }
   Boxed(Int)
@@ -58,6 +60,33 @@ pub type Nested {
 pub type Tree {
   Leaf
   Node { left: Tree, value: Int, right: Tree }
+}
+
+/// More than seven constructors: indices 7 and 8 use the second range of constructor tags.
+pub type Wide {
+  W0
+  W1(Int)
+  W2
+  W3 { a: Int, b: ByteArray }
+  W4
+  W5
+  W6(Int)
+  W7(Int)
+  W8 { only: ByteArray }
+}
+
+pub fn wide(w: Wide) -> Int {
+  when w is {
+    W0 -> 0
+    W1(n) -> n
+    W2 -> 2
+    W3 { a, .. } -> a
+    W4 -> 4
+    W5 -> 5
+    W6(n) -> n + 6
+    W7(n) -> n + 7
+    W8 { only } -> builtin.length_of_bytearray(only)
+  }
 }
 
 pub fn total(xs: List<Int>) -> Int {
@@ -122,6 +151,9 @@ const PARAM_TYPES: &[(&str, &str)] = &[
     ("Data", "1"),
     ("List<types.Item>", "1"),
     ("Option<types.Rec>", "when {p} is { Some(r) -> r.limit None -> 7 }"),
+    ("types.Wide", "types.wide({p})"),
+    ("List<types.Wide>", "2"),
+    ("(types.Wide, Int)", "{p}.2nd"),
 ];
 
 pub fn gen_project(rng: &mut Rng) -> ProjSpec {
